@@ -56,6 +56,15 @@ def _get_name(name, names):
     return name
 
 
+def _escape_text(v):
+    # A text that `from_dict` would read as something else (a formula, an error
+    # or the blank placeholder) is exported as the formula ="<text>".
+    if isinstance(v, str) and not isinstance(v, XlError) and (
+            Cell.parser.is_formula(v) or v.upper() == '#EMPTY'):
+        return '="%s"' % v.replace('"', '""')
+    return v
+
+
 def _encode_path(path):
     return path.replace('\\', '/')
 
@@ -474,10 +483,7 @@ class ExcelModel:
             for k, d in self.dsp.default_values.items()
             if not isinstance(k, sh.Token)
         }
-        nodes = {
-            k: isinstance(v, str) and v.startswith('=') and '="%s"' % v or v
-            for k, v in nodes.items()
-        }
+        nodes = {k: _escape_text(v) for k, v in nodes.items()}
         nodes = {
             k: '#EMPTY' if v == [[sh.EMPTY]] else v
             for k, v in nodes.items()
